@@ -555,6 +555,21 @@ func c20Concurrent(c *ev.Case, g *lib.Ctx) {
 		}
 	})
 	codes = append(codes, 777000, 264)
+	// paths from the root to nodes of the tree (of different lengths: each goroutine follows its own)
+	var paths [][]uint32
+	var collect func(avps []*diam.AVP, prefix []uint32)
+	collect = func(avps []*diam.AVP, prefix []uint32) {
+		for _, a := range avps {
+			p := append(append([]uint32(nil), prefix...), a.Code)
+			if len(paths) < 64 {
+				paths = append(paths, p)
+			}
+			if ga, ok := a.Data.(*diam.GroupedAVP); ok && len(p) < 6 {
+				collect(ga.AVP, p)
+			}
+		}
+	}
+	collect(dm.AVP, nil)
 	G := 2 + r.IntN(7)
 	c.Class("concurrent-searches/G=%d", G)
 	var mu sync.Mutex
@@ -569,11 +584,53 @@ func c20Concurrent(c *ev.Case, g *lib.Ctx) {
 				qs[i] = []uint32{264, 9023, 9024, 268}[r.IntN(4)] // mostly absent from the tree
 			}
 		}
+		pq := make([][]uint32, 60)
+		for i := range pq {
+			if len(paths) > 0 {
+				pq[i] = paths[r.IntN(len(paths))]
+			}
+		}
 		wg.Add(1)
 		go func() {
 			defer wg.Done()
 			<-start
 			for i, code := range qs {
+				if i%4 == 3 && pq[i%len(pq)] != nil {
+					// a path search of this goroutine's own, between the code searches
+					path := pq[i%len(pq)]
+					var wantP []*diam.AVP
+					refPath(dm.AVP, path, &wantP)
+					ifs := make([]interface{}, len(path))
+					for k, pc := range path {
+						ifs[k] = pc
+					}
+					var gotP []*diam.AVP
+					var perr error
+					pp, pbad := guard(func() { gotP, perr = dm.FindAVPsWithPath(ifs, refdict.AnyVendor) })
+					pmsg := ""
+					resolvable := true
+					for _, pc := range path {
+						if _, ok := g.Ix.FindAVP(0, pc, refdict.AnyVendor); !ok {
+							resolvable = false
+						}
+					}
+					switch {
+					case pbad:
+						pmsg = "path search panicked: " + pp
+					case resolvable && (!samePtrs(gotP, wantP) || (len(wantP) > 0 && perr != nil)):
+						pmsg = fmt.Sprintf("FindAVPsWithPath(%v) returned %d AVPs (err=%v), the reference walk finds %d", path, len(gotP), perr, len(wantP))
+					case !resolvable && len(gotP) != 0 && !samePtrs(gotP, wantP):
+						pmsg = fmt.Sprintf("FindAVPsWithPath(%v) returned AVPs that are not the reference result", path)
+					}
+					if pmsg != "" {
+						mu.Lock()
+						if problem == "" {
+							problem = pmsg
+						}
+						mu.Unlock()
+						return
+					}
+				}
 				var want []*diam.AVP
 				refWalk(dm.AVP, code, &want)
 				var got []*diam.AVP
